@@ -1,8 +1,10 @@
 #!/bin/bash
-# run_all.sh [tier]: every claimed check once on /repo as it is; one summary line each
+# run_all.sh [tier [ids...]]: every claimed check once on /repo as it is; one summary line each
 cd "$(dirname "$0")/.."
 T=${1:-quick}
-for id in $(python3 -c "import json; print(' '.join(c['property_id'] for c in json.load(open('MANIFEST.json'))['checks']))"); do
+IDS="${@:2}"
+[ -z "$IDS" ] && IDS=$(python3 -c "import json; print(' '.join(c['property_id'] for c in json.load(open('MANIFEST.json'))['checks']))")
+for id in $IDS; do
   s=$(date +%s)
   out=$(timeout 7200 bin/check $id --tier $T 2>/dev/null | grep -E '^(OK|VIOLATION|KNOWN)' | tr '\n' ';')
   echo "$id rc=$? $(( $(date +%s) - s ))s $out"
